@@ -3,6 +3,7 @@ package engdkg
 import (
 	"bytes"
 	"fmt"
+	"strings"
 
 	"github.com/drand/drand/v2/internal/dkg"
 	"github.com/drand/drand/v2/zzverif/emit"
@@ -140,6 +141,20 @@ func (w *world) monitor(rep *emit.Report, prop string, hid int, n *node) {
 			// M9 proposals the generator knows to break a rule must not be accepted
 			if st.ev.kind == evPacket && st.accepted && mustReject(st) != "" {
 				rep.Fail("C08-invalid-proposal-accepted", "proposal violating rule "+mustReject(st)+" was accepted", in())
+			}
+		}
+		// M10 a single-field alteration of a genuinely signed packet (signature kept) must be refused
+		if prop == "C09" && st.ev.kind == evPacket && st.accepted {
+			if i := strings.Index(st.ev.descr, "mutated:"); i >= 0 {
+				m := st.ev.descr[i+len("mutated:"):]
+				switch m {
+				case "t-leader-key", "t-joiner-key", "t-remainer-key", "t-seed":
+					rep.Fail("C09-unsigned-field-altered-packet-accepted",
+						"a captured, genuinely signed packet was accepted after altering a field the signature does not cover ("+m+")", in())
+				default:
+					rep.Fail("C09-altered-packet-accepted",
+						"a captured, genuinely signed packet was accepted after altering "+m+" (signature unchanged)", in())
+				}
 			}
 		}
 		if prop == "C09" && st.ev.kind == evPacket && st.accepted && st.ev.packet.GetMetadata() != nil {
